@@ -75,6 +75,8 @@ def gen_graph(rng, n_files=None):
                 c = list(range(n))
             if c:
                 targets.append(rng.choice(c))
+        if len(targets) == 2 and targets[0] != targets[1] and rng.random() < 0.35:
+            targets.append(targets[0])      # the same file named again with another include in between: a, b, a
         for j in targets:
             frm = os.path.dirname(f["rel"])
             f["includes"].append(os.path.relpath(files[j]["rel"], frm or "."))
